@@ -40,3 +40,25 @@ Fixpoint crun (s : cstate) (sched : list nat) : cstate :=
 Definition is_inside (x : tstate) : bool := match x with Inside _ _ | InsideU _ => true | _ => false end.
 Definition all_locked (p : list block) : bool := forallb (fun b => match b with BLocked _ => true | BUnlocked => false end) p.
 Definition start (progs : nat -> list block) : cstate := {| owner := None; threads := fun t => Idle (progs t) |}.
+
+(* the passes through the wrapped allocator as it sees them: (t, true) thread t enters, (t, false) thread t leaves *)
+Definition pass_event (s : cstate) (t : nat) (s' : cstate) : list (nat * bool) :=
+  match is_inside (threads s t), is_inside (threads s' t) with
+  | false, true => [(t, true)]
+  | true, false => [(t, false)]
+  | _, _ => []
+  end.
+Fixpoint ctrace (s : cstate) (sched : list nat) : list (nat * bool) :=
+  match sched with
+  | [] => []
+  | t :: tl => match cstep s t with Some s' => pass_event s t s' ++ ctrace s' tl | None => ctrace s tl end
+  end.
+(* a serial history: passes do not overlap -- an enter is only followed by the leave of the same thread *)
+Fixpoint serial (cur : option nat) (tr : list (nat * bool)) : Prop :=
+  match tr with
+  | [] => True
+  | (t, true) :: tl => cur = None /\ serial (Some t) tl
+  | (t, false) :: tl => cur = Some t /\ serial None tl
+  end.
+Definition inside_now (s : cstate) : option nat :=
+  match owner s with Some o => if is_inside (threads s o) then Some o else None | None => None end.
